@@ -874,13 +874,10 @@ Proof.
   rewrite (contract_of_sim _ _ _ a S), (sim_dsc _ _ _ S role), (sim_dss _ _ _ S), (sim_pca _ _ _ S). reflexivity.
 Qed.
 
-Theorem restart_transparent bs bs' :
+Lemma restart_sim bs bs' :
   blocks_ok cfg bs -> blocks_ok cfg bs' ->
   let st := reach cfg bs in
-  sto (fold_left (step cfg) bs' (reinit cfg st)) = sto (fold_left (step cfg) bs' st)
-  /\ obs cfg (fold_left (step cfg) bs' (reinit cfg st)) = obs cfg (fold_left (step cfg) bs' st)
-  /\ (forall role index a, obsX (fold_left (step cfg) bs' (reinit cfg st)) role index a
-                           = obsX (fold_left (step cfg) bs' st) role index a).
+  Sim false (fold_left (step cfg) bs' st) (fold_left (step cfg) bs' (reinit cfg st)).
 Proof.
   intros Hok Hok' st.
   destruct (cache_coherent_reach cfg CW FIX7 FIX23 FIX46 CSZ bs Hok) as [C I]. fold st in C, I.
@@ -899,8 +896,43 @@ Proof.
   assert (S0 : Sim false st (reinit cfg st)) by (apply reinit_sim; exact C).
   assert (I' : Inv cfg (L (reinit cfg st))).
   { replace (L (reinit cfg st)) with (L st); [exact I|]. unfold reinit. destruct (_ =? 0); reflexivity. }
-  pose proof (G st (reinit cfg st) S0 C (reinit_coh cfg CSZ st C) I I') as S.
+  exact (G st (reinit cfg st) S0 C (reinit_coh cfg CSZ st C) I I').
+Qed.
+
+Theorem restart_transparent bs bs' :
+  blocks_ok cfg bs -> blocks_ok cfg bs' ->
+  let st := reach cfg bs in
+  sto (fold_left (step cfg) bs' (reinit cfg st)) = sto (fold_left (step cfg) bs' st)
+  /\ obs cfg (fold_left (step cfg) bs' (reinit cfg st)) = obs cfg (fold_left (step cfg) bs' st)
+  /\ (forall role index a, obsX (fold_left (step cfg) bs' (reinit cfg st)) role index a
+                           = obsX (fold_left (step cfg) bs' st) role index a).
+Proof.
+  intros Hok Hok' st. pose proof (restart_sim bs bs' Hok Hok') as S. fold st in S.
   split; [apply (Sim_sto _ _ _ S)|split; [apply (Sim_obs _ _ _ S)|intros role index a; apply (Sim_obsX _ _ _ role index a S)]].
+Qed.
+
+(* the gas-per-block history: GetGASPerBlock(index) and the sum CalculateNEOHolderReward takes over it are the same on
+   the restarted node (list rebuilt from storage: one record per index) and on the running one (append-only slice,
+   possibly several records of one index, the last appended one wins), for EVERY index, after any continuation *)
+Lemma Sim_gpb_lookup b st st' idx : Sim b st st' -> gas_per_block st' idx = gas_per_block st idx.
+Proof.
+  intros S. unfold gas_per_block. rewrite <- (gpb_at_dedup (c_gpb (A st'))), (sim_gpb _ _ _ S). apply gpb_at_dedup.
+Qed.
+
+Lemma Sim_gpb_sum b st st' start en : Sim b st st' -> gas_sum_over st' start en = gas_sum_over st start en.
+Proof.
+  intros S. unfold gas_sum_over. rewrite <- (holder_sum_dedup (c_gpb (A st'))), (sim_gpb _ _ _ S). apply holder_sum_dedup.
+Qed.
+
+Theorem gas_per_block_restart_transparent bs bs' :
+  blocks_ok cfg bs -> blocks_ok cfg bs' ->
+  let st := reach cfg bs in
+  forall idx start en,
+    gas_per_block (fold_left (step cfg) bs' (reinit cfg st)) idx = gas_per_block (fold_left (step cfg) bs' st) idx
+    /\ gas_sum_over (fold_left (step cfg) bs' (reinit cfg st)) start en = gas_sum_over (fold_left (step cfg) bs' st) start en.
+Proof.
+  intros Hok Hok' st idx start en. pose proof (restart_sim bs bs' Hok Hok') as S. fold st in S.
+  split; [apply (Sim_gpb_lookup _ _ _ idx S)|apply (Sim_gpb_sum _ _ _ start en S)].
 Qed.
 
 (* any number of restarts at any block boundaries *)
